@@ -122,6 +122,22 @@ fn do_replay<P: Prop>(path: &str) -> i32 {
             0
         }
         Ok((vs, _)) => {
+            // recorded findings are reported as such here too
+            let known = supervise::load_known_findings();
+            let mut new = 0;
+            for v in &vs {
+                if let Some(k) = known.iter().find(|k| {
+                    k.property == P::ID && k.status == "known" && k.signature == v.signature
+                }) {
+                    println!("KNOWN-FINDING: property={} {} (signature {})", P::ID, k.what, k.signature);
+                } else {
+                    new += 1;
+                }
+            }
+            if new == 0 {
+                println!("HELD property={} replay={path} (only recorded findings)", P::ID);
+                return 0;
+            }
             println!("VIOLATION property={} replay={path}", P::ID);
             for v in vs {
                 println!("  signature={} detail={}", v.signature, v.detail);
